@@ -99,6 +99,8 @@ def clock_replacer(ctx, thorough):
     fam = "ClockReplacer"
     vlib.model_check(ctx, fam, "MC", "MC_4.cfg", workers=4)
     vlib.model_check(ctx, fam, "MC", "MC_6.cfg", workers=8)
+    if thorough:
+        vlib.model_check(ctx, fam, "MC", "MC_8.cfg", workers=16, timeout=1800)   # 219 k distinct states
     dot = os.path.join(ctx.work, "clock.dot")
     vlib.model_check(ctx, fam, "MC", "MC_walk.cfg", workers=1, extra=["-dump", "dot,actionlabels", dot], name="graph-clock")
     inits, nodes, edges = vlib.parse_dot(dot)
